@@ -424,3 +424,27 @@ def complete(ctx, prog, fa):
             ok = norm_text(rr.value) in ("content_blobs + sd_blobs", "sd_blobs + content_blobs")
             ctx.ob("C19-D4/DEP", ok, gs.site(rr), "the content listing is content blobs and sd blobs together", func=gq)
     ctx.floor("C19-D4/GATE", "returns of get_stored_blobs", len(gs.stmts(ast.Return)), 2, site=gs.site(), func=gq)
+    ca_ = ctx.fa("lbry.blob.disk_space_manager.DiskSpaceManager.clean")
+    cl = ca_.calls(name="_clean")
+    ok = len(cl) == 2 and all(isinstance(c._parent, ast.Await) and isinstance(c._parent._parent, (ast.Expr, ast.Assign, ast.Return)) and c._parent._parent in ca_.node.body
+                               and not R.atomic_facts_at(ca_, c)[0] for c in cl) and sorted(norm_text(c.args[0]) if c.args else "False" for c in cl) == ["False", "True"]
+    ctx.ob("C19-D4/GATE", ok, ca_.site(), "a cleanup pass runs the content pass and the network pass as two unconditional statements (the second must not depend on what the first deleted)",
+           func=ca_.fi.qualname, key="C19-D4/GATE|both-passes")
+    # `is_mine` is what protects published blobs: it is written when a row is first inserted and by update_blob_ownership only — rows are never replaced
+    st = prog.module("lbry.extras.daemon.storage")
+    sq = [x for x in ast.walk(st.tree) if isinstance(x, (ast.Constant, ast.JoinedStr))]
+    texts = []
+    for x in sq:
+        t_ = x.value if isinstance(x, ast.Constant) and isinstance(x.value, str) else ast.unparse(x) if isinstance(x, ast.JoinedStr) else None
+        if t_:
+            texts.append((x, " ".join(t_.split()).lower()))
+    bad = [(x, t_) for x, t_ in texts if _re.search(r"replace.{0,12}into blob\b", t_) or (_re.search(r"insert or \{", t_) and "into blob" in t_)]
+    ctx.ob("C19-D2/SQL", not bad, f"lbry/extras/daemon/storage.py:{bad[0][0].lineno}" if bad else "lbry/extras/daemon/storage.py:1", "blob rows are inserted with `insert or ignore`, never replaced "
+           "(a replace would overwrite is_mine of a published blob with the caller's default)", detail=bad[0][1][:80] if bad else "", key="C19-D2/SQL|no-replace")
+    own = [(x, t_) for x, t_ in texts if _re.search(r"update blob set [^;]*is_mine", t_)]
+    fns = sorted({getattr(prog.function_of(x), "qualname", "?").split(".<locals>")[0] for x, _t in own})
+    ctx.ob("C19-D2/SQL", fns == ["lbry.extras.daemon.storage.SQLiteStorage.update_blob_ownership"], "lbry/extras/daemon/storage.py:1", "is_mine of an existing row is changed only by update_blob_ownership",
+           detail=str(fns), key="C19-D2/SQL|is_mine-writers")
+    ins = [(x, t_) for x, t_ in texts if "into blob values" in t_]
+    ctx.ob("C19-D2/SQL", len(ins) >= 2 and all(t_.startswith("insert or ignore into blob values") for _x, t_ in ins), "lbry/extras/daemon/storage.py:1", "every insertion into blob is `insert or ignore`",
+           detail=str([t_[:40] for _x, t_ in ins]), key="C19-D2/SQL|insert-ignore")
